@@ -105,15 +105,27 @@ def check_program(ctx: Ctx, init: FuncInfo):
     ctx.check(ok, "MP-default-iterations", init, "default count used only when none is given", "", "n_iterations is overwritten even when the caller supplied it", asg[0] if asg else init.node)
     # the extra qubits of the oracle circuit exist in the main circuit
     adds = [c for c in q.calls(init.node) if dotted(c.func) == "self._qcircuit.add_qubit"]
-    ok = False
+    from ..rewrite import single_bindings as _sb
+
+    verdict = None
     for c in adds:
         par = init.pm.get(c)
         while par is not None and not isinstance(par, (ast.ListComp, ast.For)):
             par = init.pm.get(par)
-        if par is not None:
-            it_txt = norm(par.generators[0].iter if isinstance(par, ast.ListComp) else par.iter).replace(" ", "")
-            ok = it_txt == "range(oracle_qc.num_qubits-self.search_space_size)"
-    ctx.check(ok, "TS-PREP", init, "main circuit widened to the oracle circuit's qubit count", "", "the main circuit does not get one qubit per oracle qubit beyond the search register", init.node)
+        if par is None:
+            continue
+        itn = par.generators[0].iter if isinstance(par, ast.ListComp) else par.iter
+        if not (isinstance(itn, ast.Call) and isinstance(itn.func, ast.Name) and itn.func.id == "range" and len(itn.args) == 1):
+            continue
+        lf = q.linear_form(itn.args[0], _sb(init))
+        if lf is None:
+            continue
+        wide = [k for k, v in lf.items() if k.endswith(".num_qubits") and v == 1]
+        verdict = (len(wide) == 1 and lf.get("self.search_space_size") == -1 and len(lf) == 2, norm(itn), c)
+    if verdict is None:
+        ctx.undecided(init.short, "the main circuit is not widened by `for _ in range(<oracle qubits> - <search register>): add_qubit()`")
+    else:
+        ctx.check(verdict[0], "TS-PREP", init, "main circuit widened to the oracle circuit's qubit count", verdict[1], f"the main circuit gets `{verdict[1]}` extra qubits, not one per oracle qubit beyond the search register", verdict[2])
     # single-argument oracle check first
     first = [n for n in walk_no_nested(init.node) if isinstance(n, ast.Assign) and norm(n.targets[0]) == "self._qcircuit"]
     facts = [(norm(e), pol) for e, pol in guard_facts(init, first[0])] if first else []
